@@ -106,7 +106,8 @@ func (r Raw) Digest() string {
 type AccView struct {
 	Addr     string
 	Bal      *big.Int // amount of the stake denom
-	Other    bool     // holds coins of another denom (never expected)
+	Bal2     *big.Int // amount of the second denomination (SecondDenom), zero if none
+	Other    bool     // holds coins of a denomination that is neither of the two (never expected)
 	Module   string   // module account name, "" otherwise
 	HasPub   bool
 	Negative bool
@@ -143,6 +144,7 @@ type SignInfo struct {
 
 type View struct {
 	Supply      *big.Int
+	Supply2     *big.Int // recorded supply of the second denomination
 	SupplyOther bool
 	Accounts    map[string]*AccView
 	Vals        map[string]*ValView
@@ -163,24 +165,33 @@ type View struct {
 func hx(b []byte) string { return hex.EncodeToString(b) }
 
 func coinsAmount(c sdk.Coins) (*big.Int, bool, bool) {
-	amt := new(big.Int)
+	amt, _, other, neg := coinsAmount2(c)
+	return amt, other, neg
+}
+
+// coinsAmount2 splits a coin set into the stake denomination, the second denomination, "anything else" and "any negative".
+func coinsAmount2(c sdk.Coins) (*big.Int, *big.Int, bool, bool) {
+	amt, amt2 := new(big.Int), new(big.Int)
 	other, neg := false, false
 	for _, x := range c {
 		if x.Amount.IsNegative() {
 			neg = true
 		}
-		if x.Denom == Denom {
+		switch x.Denom {
+		case Denom:
 			amt = new(big.Int).Set(x.Amount.BigInt())
-		} else {
+		case SecondDenom:
+			amt2 = new(big.Int).Set(x.Amount.BigInt())
+		default:
 			other = true
 		}
 	}
-	return amt, other, neg
+	return amt, amt2, other, neg
 }
 
 // Decode interprets a raw dump with the application's codec.
 func (a *App) Decode(r Raw) *View {
-	v := &View{Supply: new(big.Int), Accounts: map[string]*AccView{}, Vals: map[string]*ValView{},
+	v := &View{Supply: new(big.Int), Supply2: new(big.Int), Accounts: map[string]*AccView{}, Vals: map[string]*ValView{},
 		PrevPower: map[string]int64{}, PrevTotal: new(big.Int), Sign: map[string]*SignInfo{},
 		MissedBits: map[string]map[int64]bool{}, Awards: map[string]*big.Int{}, Burns: map[string]sdk.Dec{},
 		PubRel: map[string]bool{}, Params: map[string]string{}}
@@ -201,15 +212,15 @@ func (a *App) Decode(r Raw) *View {
 			try("supply", func() {
 				var s authExported.SupplyI
 				cdc.MustUnmarshalBinaryLengthPrefixed(val, &s)
-				amt, other, _ := coinsAmount(s.GetTotal())
-				v.Supply, v.SupplyOther = amt, other
+				amt, amt2, other, _ := coinsAmount2(s.GetTotal())
+				v.Supply, v.Supply2, v.SupplyOther = amt, amt2, other
 			})
 		case kb[0] == 0x01:
 			try("account", func() {
 				var acc authExported.Account
 				cdc.MustUnmarshalBinaryBare(val, &acc)
-				amt, other, neg := coinsAmount(acc.GetCoins())
-				av := &AccView{Addr: hx(kb[1:]), Bal: amt, Other: other, Negative: neg, HasPub: acc.GetPubKey() != nil, Pub: acc.GetPubKey()}
+				amt, amt2, other, neg := coinsAmount2(acc.GetCoins())
+				av := &AccView{Addr: hx(kb[1:]), Bal: amt, Bal2: amt2, Other: other, Negative: neg, HasPub: acc.GetPubKey() != nil, Pub: acc.GetPubKey()}
 				if m, ok := acc.(*authTypes.ModuleAccount); ok {
 					av.Module = m.Name
 				}
